@@ -492,7 +492,8 @@ def run_session(case):
     import jesse.helpers as jh
     from jesse import research
     install()
-    jh.CACHED_CONFIG.clear()
+    if not case.get('no_hygiene'):
+        jh.CACHED_CONFIG.clear()     # process-wide memo of config look-ups: the subject of C11, reset for every other check
     del TRACE[:]
     del ORDERS[:]
     SPECS.clear()
@@ -501,17 +502,22 @@ def run_session(case):
     STATE['observe'] = case.get('observe', 1)
     c = case['cfg']
     cfg = {'starting_balance': c.get('balance', 10000), 'fee': c.get('fee', 0), 'type': c.get('type', 'futures'),
-           'futures_leverage': c.get('leverage', 2), 'futures_leverage_mode': c.get('mode', 'cross'), 'exchange': EX,
+           'futures_leverage': c.get('leverage', 2), 'futures_leverage_mode': c.get('mode', 'cross'), 'exchange': c.get('exchange', EX),
            'warm_up_candles': c.get('warm_up_candles', 0)}
     routes = []
     for i, r in enumerate(case['routes']):
         SPECS[r['symbol']] = r['spec']
-        routes.append({'exchange': EX, 'strategy': strategy_class(i), 'symbol': r['symbol'], 'timeframe': r['timeframe']})
-    droutes = [{'exchange': EX, 'symbol': s, 'timeframe': tf} for s, tf in case.get('data_routes', [])]
-    candles = {'%s-%s' % (EX, s): {'exchange': EX, 'symbol': s, 'candles': np.array(rows, dtype=float)} for s, rows in case['candles'].items()}
+        routes.append({'exchange': cfg['exchange'], 'strategy': strategy_class(i), 'symbol': r['symbol'], 'timeframe': r['timeframe']})
+    X = cfg['exchange']
+    droutes = [{'exchange': X, 'symbol': s, 'timeframe': tf} for s, tf in case.get('data_routes', [])]
+    candles = {'%s-%s' % (X, s): {'exchange': X, 'symbol': s, 'candles': np.array(rows, dtype=float)} for s, rows in case['candles'].items()}
     warm = None
     if case.get('warmup'):
-        warm = {'%s-%s' % (EX, s): {'exchange': EX, 'symbol': s, 'candles': np.array(rows, dtype=float)} for s, rows in case['warmup'].items()}
+        warm = {'%s-%s' % (X, s): {'exchange': X, 'symbol': s, 'candles': np.array(rows, dtype=float)} for s, rows in case['warmup'].items()}
+    if case.get('keep_args') is not None:
+        import copy
+        case['keep_args'].update({'before': copy.deepcopy((cfg, [dict(r, strategy=None) for r in routes], droutes, candles, warm)),
+                                  'live': (cfg, routes, droutes, candles, warm)})
     err = None
     res = None
     try:
